@@ -427,7 +427,8 @@ func ruleAllocTriple(c *Ctx) []Ob {
 							if !rootedAt(ad.Call.Args[0], x) {
 								continue
 							}
-							s.check(path(ad.Call.Args[1]) == desc+".Size", key+":stride", c.InstrPos(ad), "advances by "+desc+".Size", "pointer into an allocation of "+desc+" elements advances by "+path(ad.Call.Args[1])+": elements would overlap or leave gaps")
+							okS, what := strideOK(ad.Call.Args[1], desc+".Size")
+							s.check(okS, key+":stride", c.InstrPos(ad), what, "pointer into an allocation of "+desc+" elements advances by "+what+": elements would overlap or leave gaps")
 						}
 					}
 				case *ssa.Store:
